@@ -208,7 +208,7 @@ def run_model_tie(ctx):
     """Same propositional programs through the Coq machine (two different
     schedules, well-founded semantics, exact rationals) and through the real
     default engine; query probabilities must agree to 1e-9."""
-    n = ctx.n(40, 400)
+    n = ctx.n(24, 400)
     gens = [gen_prop(ctx.rng) for _ in range(n)]
     outs = pl.pmap(_tie_worker, gens, jobs=ctx.jobs, chunksize=2)
     cases, metas, differ = [], [], []
@@ -295,7 +295,7 @@ def run(ctx):
             excluded[os.path.relpath(f, vf.REPO)] = EXCLUDED[b]
             continue
         seeds = [ctx.rng.randrange(1, 2 ** 31) for _ in range(nseeds)]
-        items.append(({"path": f}, ["default"] + ["perm:%d" % s for s in seeds], ctx.n(10, 20)))
+        items.append(({"path": f}, ["default"] + ["perm:%d" % s for s in seeds], ctx.n(20, 30)))
         labels.append(os.path.relpath(f, vf.REPO))
     ctx.cov["corpus_files"] = len(items)
     ctx.cov["corpus_excluded"] = excluded
@@ -311,7 +311,7 @@ def run(ctx):
         for ft in feats:
             ctx.count("gen feature " + ft)
         seeds = [ctx.rng.randrange(1, 2 ** 31) for _ in range(nseeds)]
-        items.append(({"src": "\n".join(lines)}, ["default"] + ["perm:%d" % s for s in seeds], 10))
+        items.append(({"src": "\n".join(lines)}, ["default"] + ["perm:%d" % s for s in seeds], 20))
         labels.append("generated#%d" % i)
     ctx.cov["generated_programs"] = nprog
     process(ctx, items, labels, "generated", totals, shrink_budget=ctx.n(1, 2))
